@@ -4,6 +4,7 @@ import Parsley.Model.Obj
 import Parsley.Spec.Spelling
 import Parsley.Spec.SpellingWF
 import Parsley.Spec.NumLit
+import Parsley.Spec.DecLit
 namespace Driver.C02
 open Parsley Parsley.Prim Parsley.Obj Parsley.Spelling Driver
 
@@ -16,7 +17,8 @@ open Parsley Parsley.Prim Parsley.Obj Parsley.Spelling Driver
     `lit <d> <hex> <len> <lead> <expected sexp…>`  a text around a point-free number token of any size (outside the
                                                    encoder's domain); expected value by Spec/NumLit.lean; judged like `sp`
     `nolit <d> <hex>`                              such a text that is not an object (token beyond the i128 range, or a
-                                                   reference whose number / generation is not an integer): must be rejected -/
+                                                   reference whose number / generation is not an integer): must be rejected
+    (`lit` / `nolit` also carry the tokens WITH a decimal point, expected value by Spec/DecLit.lean) -/
 def model (line : String) : String :=
   match words line with
   | _ :: d :: hex :: _ =>
@@ -209,8 +211,64 @@ def numLits (emit : String → IO Unit) (full : Bool) : IO Unit := do
       emit (caseOf (bs "5") (bs " " ++ tok ++ bs " R") (some (.int 5)))
       emit (caseOf (bs "[5 " ++ tok ++ bs " R]") [] none)
 
+/-! ### number tokens with a decimal point, of any size
+
+  `[sign] ds . fs` is the Real (all digits, 10^|fs|) while both fit an i128, with no fraction digit what
+  the point-free token is, and otherwise not an object (`DecLit.denote`, Spec/DecLit.lean; the parser
+  side is `decimal_token_denotes`, Props/C02Dec.lean).  The tokens are built from the limit: digit
+  strings around 2^127-1 (last digit decides, one digit more, one less) split into integer and fraction
+  part at the ends and in the middle - so that the overflow falls into the fraction loop -, and fractions
+  of 36..40 digits after a small numerator (10^38 is the last denominator that fits). -/
+
+/-- (integer digits, fraction digits) -/
+def decToks (full : Bool) : List (Bytes × Bytes) :=
+  let L : Nat := 2 ^ 127 - 1
+  let q := L / 10
+  let mags : List Nat := [L - 1, L, L + 1, q * 10, q * 10 + 8, q * 10 + 9, (q + 1) * 10, (q + 1) * 10 + 5, L * 10, L * 10 + 7,
+    q, q + 1, q - 1, 10 ^ 37, 10 ^ 38, 10 ^ 39, 2 ^ 128 + 5, 2 ^ 63 - 1, 2 ^ 63, 2 ^ 64 + 5]
+  (mags.flatMap fun m =>
+    let t := natDigits m
+    let n := t.length
+    let ps := if full then List.range (n + 1) else ([0, 1, n / 2, n - 2, n - 1, n].filter (· ≤ n)).eraseDups
+    ps.map fun p => (t.take p, t.drop p)) ++
+  (([[], bs "0", bs "7", bs "17"] : List Bytes).flatMap fun ds =>
+    ([1, 18, 36, 37, 38, 39, 40] : List Nat).flatMap fun z =>
+      ([[], bs "1", bs "99"] : List Bytes).map fun tail => (ds, zeros z ++ tail)) ++
+  [(bs "12", []), ([], bs "5"), (bs "0", bs "0"), (bs "007", bs "50"), (bs "3", bs "14159")]
+
+def decLits (emit : String → IO Unit) (full : Bool) : IO Unit := do
+  let mut k := 0
+  for (ds0, fs) in decToks full do
+    k := k + 1
+    if ds0.isEmpty && fs.isEmpty then continue
+    let neg := k % 3 == 0
+    let sign : Bytes := if neg then [45] else if k % 3 == 1 then [43] else []
+    let ds := zeros (k % 4 / 2 * (k % 5 / 2)) ++ ds0
+    let tok := sign ++ ds ++ [46] ++ fs
+    let lead : Bytes := [[], [32], bs "%c\n ", [13, 10]][k % 4]?.getD []
+    let v := DecLit.denote neg ds fs
+    let isI := DecLit.isInt neg ds fs
+    let caseOf (text ctx : Bytes) (e : Option Obj) : String :=
+      match e with
+      | some e => s!"lit 5 {hexOfBytes (lead ++ text ++ ctx)} {lead.length + text.length} {lead.length} {objSexp e}"
+      | none => s!"nolit 5 {hexOfBytes (lead ++ text ++ ctx)}"
+    let ctxs := if full then contexts else (List.range 4).map fun i => contexts[(k + 4 * i) % contexts.length]?.getD []
+    for ctx in ctxs do
+      emit (caseOf tok (genContextFor isI ctx) v)
+    let after := contexts[k % contexts.length]?.getD []
+    emit (caseOf (bs "[1 " ++ tok ++ bs "/X]") after (v.map fun v => .arr [.int 1, v, .name (bs "X")]))
+    emit (caseOf (bs "[" ++ tok ++ bs "]") after (v.map fun v => .arr [v]))
+    emit (caseOf (bs "[" ++ tok ++ bs " " ++ tok ++ bs "]") after (v.map fun v => .arr [v, v]))
+    emit (caseOf (bs "<</A " ++ tok ++ bs "/B 1>>") after (v.map fun v => .dict [(bs "A", v), (bs "B", .int 1)]))
+    emit (caseOf (bs "<</A[" ++ tok ++ bs " ]>>") after (v.map fun v => .dict [(bs "A", .arr [v])]))
+    if !isI then
+      -- not an integer: never the object number / generation of a reference
+      emit (caseOf (bs "[" ++ tok ++ bs " 0 R]") [] none)
+      emit (caseOf (bs "5") (bs " " ++ tok ++ bs " R") (some (.int 5)))
+
 def gen (seed n : Nat) (tier : String) (emit : String → IO Unit) : IO Unit := do
   numLits emit (tier == "thorough")
+  decLits emit (tier == "thorough")
   let mut r := Rng.mk' seed
   for _ in List.range n do
     let (v, r1) := rndObj 4 r
